@@ -43,6 +43,14 @@ def _search3(seed):
     return c
 
 
+def _searchws(seed):
+    """world-set family (multi-clause conditionals, cost-order-sensitive queries): rewriting the
+    conditionals changes their clause sets but not their meaning"""
+    from .. import search as S
+    feat = ["superset-before-subset", "min-card-set-after-larger"][seed % 2]
+    return S.worldset_search(seed, feat, max_candidates=6000, need_lex_tie=(seed % 2 == 1))
+
+
 def _layered():
     @st.composite
     def go(draw):
@@ -58,14 +66,18 @@ def _case(draw, tier):
         gen.strong_case(1, 4, 5, qlo=2, qhi=4),
         _layered(),
         st.integers(0, 2**40).map(_search3),
+        st.integers(0, 2**40).map(_search3),
+        st.integers(0, 2**40).map(_searchws),
         gen.weak_case(1, 4, 5, qlo=2, qhi=4),
         rel.medium_case(8, 16 if q else 40, 16 if q else 40, nq=3),
         rel.corpus_case(20 if q else 100, 20 if q else 100, nq=2),
     )))
     k = draw(st.integers(1, 3))
     ts = [draw(gen._weighted([(t, 2 if t == "rename:internal" else 6) for t in TRANSFORMS])) for _ in range(k)]
-    if c.get("searched") == "three-layer-tie" and draw(st.booleans()):
-        ts = ["reorder:specific-first"] + ts[:1]
+    if c.get("searched") in ("superset-before-subset", "min-card-set-after-larger"):
+        ts = ["equiv:base"] + ts[:1]
+    if c.get("searched") == "three-layer-tie":
+        ts = [draw(st.sampled_from(["reorder:specific-first", "reorder:specific-first", "reorder"]))] + ts[:1]
     c["transforms"] = ts
     c["tseed"] = draw(st.integers(0, 2**32))
     return c
